@@ -1,12 +1,156 @@
-from harness.common import main
+"""C10 -- cached per-particle log-densities always belong to the particle's
+coordinates (loop harness, plus the initial-population harness in the FP
+sort; DESIGN 6/C10)."""
+
+from harness.common import core, main, sx, z3
 from harness.loop_base import LoopCheck
+from harness.stubs import FlowStub, Target, UserFns
 
 
 class C10(LoopCheck):
     pid = "C10"
     props = {"C10"}
     flows = ("plain", "resume")
-    required_labels = []
+    required_labels = ["c10/history", "c10/final", "c10/initial_fp/size", "c10/initial_fp/rows", "c10/initial_fp/finite_prior"]
+
+    def configs(self, tier):
+        out = super().configs(tier)
+        for n, d in ([(2, 1)] if tier == "quick" else [(2, 1), (2, 2), (3, 1)]):
+            out.append({"name": f"initial-fp-n{n}-d{d}", "kind": "initial_fp", "N": n, "d": d, "rounds": 2, "flow": "initial_fp", "timeout_ms": 120000})
+        return out
+
+    def ctx_for(self, cfg, seed):
+        if cfg.get("kind") == "initial_fp":
+            return sx.Ctx(self.pid, seed=seed, timeout_ms=cfg.get("timeout_ms", 120000), sort="F", fp_bits=64)
+        return super().ctx_for(cfg, seed)
+
+    def harness(self, cfg):
+        if cfg.get("kind") == "initial_fp":
+            return self.h_initial(cfg)
+        return super().harness(cfg)
+
+    def h_initial(self, cfg):
+        from aspire.samplers.mcmc import MCMCSampler
+
+        n, d = cfg["N"], cfg["d"]
+
+        def h(ctx):
+            S = sx.OPS.sort
+            fns = UserFns(d, sort=S)
+            tgt = Target(ctx, d, fns, check_c17=False)
+            flow = FlowStub(ctx, d, fns)
+            flow.max_draws = cfg["rounds"]
+            smp = MCMCSampler(
+                log_likelihood=tgt.log_likelihood,
+                log_prior=tgt.log_prior,
+                dims=d,
+                prior_flow=flow,
+                xp=sx,
+                parameters=[f"p{k}" for k in range(d)],
+            )
+            ctx.notes["int_enum_max"] = n
+            out = smp.draw_initial_samples(n)
+            fin = lambda t: z3.Not(z3.Or(z3.fpIsNaN(t), z3.fpIsInf(t)))  # noqa: E731
+            # specification: the first n finite-prior rows in draw order
+            rows = []
+            for k in range(1, flow.n_draws + 1):
+                x = sx.sym(f"q{k}", (n, d))
+                for i in range(n):
+                    r = sx.terms(x[i])
+                    if ctx.branch(fin(fns.PI(*r))):
+                        rows.append(r)
+            ctx.prove(len(out.x) == n, "c10/initial_fp/size", detail={"len": len(out.x), "draw_rounds": flow.n_draws})
+            if len(out.x) != n:
+                return
+            ctx.prove(len(rows) >= n, "c10/initial_fp/enough_valid")
+            ll, lp, lq = sx.terms(out.log_likelihood), sx.terms(out.log_prior), sx.terms(out.log_q)
+            for i in range(n):
+                r = sx.terms(out.x[i])
+                ctx.prove(z3.And(*[a == b for a, b in zip(r, rows[i])]), "c10/initial_fp/rows", detail={"row": i})
+                ctx.prove(fin(lp[i]), "c10/initial_fp/finite_prior", detail={"row": i})
+                ctx.prove(z3.And(lp[i] == fns.PI(*r), lq[i] == fns.Q(*r), ll[i] == fns.L(*r)), "c10/initial_fp/densities", detail={"row": i})
+            ctx.prove(smp.n_likelihood_evaluations == n and tgt.n_points == n, "c10/initial_fp/likelihood_once", detail={"points": tgt.n_points})
+
+        return h
+
+    def to_cex(self, fl):
+        if fl["cfg"].get("kind") == "initial_fp":
+            env = {k: v for k, v in fl["env"].items() if k != "__purified__"}
+            return {"cfg": fl["cfg"], "label": fl["label"], "detail": fl.get("detail"), "env": env}
+        return super().to_cex(fl)
+
+    def replay(self, cex):
+        if cex["cfg"].get("kind") == "initial_fp":
+            return replay_initial(cex)
+        return super().replay(cex)
+
+
+def replay_initial(cex):
+    """Real draw_initial_samples on NumPy: the prior is -inf on the rows the
+    model marked non-finite; the oracle recomputes the expected selection."""
+    import numpy as np
+
+    from aspire.samplers.mcmc import MCMCSampler
+
+    cfg = cex["cfg"]
+    n, d = cfg["N"], cfg["d"]
+    rs = np.random.default_rng(5)
+    draws = [rs.normal(size=(n, d)) + 10 * k for k in range(1, 8)]
+    # which rows are invalid: try every pattern over the first two rounds
+    bad = []
+    for pattern in range(2 ** (2 * n)):
+        invalid = {(k, i) for k in range(2) for i in range(n) if (pattern >> (k * n + i)) & 1}
+        state = {"k": 0}
+        lookup = {}
+
+        def Lf(x):
+            return -0.5 * np.sum(np.asarray(x) ** 2, axis=-1)
+
+        def Pf(x):
+            x = np.asarray(x)
+            out = -np.sum(np.abs(x), axis=-1)
+            for r, row in enumerate(x):
+                if lookup.get(tuple(row)) in invalid:
+                    out[r] = -np.inf
+            return out
+
+        def Qf(x):
+            return -0.25 * np.sum(np.asarray(x) ** 2, axis=-1) - 1.0
+
+        class Flow:
+            def sample_and_log_prob(self, m):
+                k = state["k"]
+                state["k"] += 1
+                x = draws[k].copy()
+                for i, row in enumerate(x):
+                    lookup[tuple(row)] = (k, i)
+                return x, Qf(x)
+
+        calls = {"n": 0}
+
+        def Lw(s):
+            calls["n"] += len(s.x)
+            return Lf(s.x)
+
+        smp = MCMCSampler(log_likelihood=Lw, log_prior=lambda s: Pf(s.x), dims=d, prior_flow=Flow(), xp=np)
+        with np.errstate(all="ignore"):
+            out = smp.draw_initial_samples(n)
+        want = [draws[k][i] for k in range(state["k"]) for i in range(n) if (k, i) not in invalid][:n]
+        msg = None
+        if len(out.x) != n:
+            msg = f"{len(out.x)} particles instead of {n}"
+        elif not np.array_equal(np.asarray(out.x), np.asarray(want)):
+            msg = "initial population is not the first n finite-prior draws"
+        elif not np.all(np.isfinite(out.log_prior)):
+            msg = "non-finite prior kept"
+        elif not (np.array_equal(out.log_prior, Pf(out.x)) and np.array_equal(out.log_q, Qf(out.x)) and np.array_equal(out.log_likelihood, Lf(out.x))):
+            msg = "cached densities do not belong to the rows"
+        elif calls["n"] != n:
+            msg = f"likelihood evaluated on {calls['n']} points instead of {n}"
+        if msg:
+            bad.append(f"invalid rows {sorted(invalid)}: {msg}")
+            break
+    return (len(bad) > 0, "; ".join(bad) if bad else "all initial-population clauses hold")
 
 
 if __name__ == "__main__":
